@@ -14,8 +14,29 @@ var YieldFn func(pkg, site int)
 // BlockFn parks the calling task until ready() is true (used by the mutex shims).
 var BlockFn func(what string, ready func() bool)
 
-// LockEvent is told about lock acquisition/release by the current task.
-var LockEvent func(delta int)
+// LockEvent is told about lock acquisition/release by the current task (l identifies the lock).
+var LockEvent func(l any, delta int)
+
+// AccFn is told about every syntactic access the generated code makes to a field reached through a
+// pointer to one of its own struct types, or to one of its package-level variables (the in-simulator
+// happens-before race detector). base is that pointer (nil for package-level variables); it is never
+// dereferenced here.
+var AccFn func(pkg, site int, base any, loc string, write bool)
+
+func R(pkg, site int, base any, loc string) {
+	if f := AccFn; f != nil {
+		f(pkg, site, base, loc, false)
+	}
+}
+
+func W(pkg, site int, base any, loc string) {
+	if f := AccFn; f != nil {
+		f(pkg, site, base, loc, true)
+	}
+}
+
+// PoolEvent: Put(x) happens before the Get that returns x.
+var PoolEvent func(p any, put bool)
 
 func Y(pkg, site int) {
 	if f := YieldFn; f != nil {
@@ -54,10 +75,10 @@ func Keys[M ~map[K]V, K comparable, V any](site int, m M) []K {
 
 func ZeroKV[M ~map[K]V, K comparable, V any](m M) (k K, v V) { return }
 
-func lockLoop(what string, try func() bool) {
+func lockLoop(what string, l any, try func() bool) {
 	if try() {
 		if LockEvent != nil {
-			LockEvent(+1)
+			LockEvent(l, +1)
 		}
 		return
 	}
@@ -66,22 +87,22 @@ func lockLoop(what string, try func() bool) {
 	}
 	BlockFn(what, try) // returns once try() succeeded (evaluated by the scheduler while every task is parked)
 	if LockEvent != nil {
-		LockEvent(+1)
+		LockEvent(l, +1)
 	}
 }
 
-func unlocked() {
+func unlocked(l any) {
 	if LockEvent != nil {
-		LockEvent(-1)
+		LockEvent(l, -1)
 	}
 }
 
-func MuLock(m *sync.Mutex)     { lockLoop("Mutex.Lock", m.TryLock) }
-func MuUnlock(m *sync.Mutex)   { m.Unlock(); unlocked() }
-func RWLock(m *sync.RWMutex)   { lockLoop("RWMutex.Lock", m.TryLock) }
-func RWUnlock(m *sync.RWMutex) { m.Unlock(); unlocked() }
-func RWRLock(m *sync.RWMutex)  { lockLoop("RWMutex.RLock", m.TryRLock) }
-func RWRUnlock(m *sync.RWMutex) { m.RUnlock(); unlocked() }
+func MuLock(m *sync.Mutex)      { lockLoop("Mutex.Lock", m, m.TryLock) }
+func MuUnlock(m *sync.Mutex)    { unlocked(m); m.Unlock() }
+func RWLock(m *sync.RWMutex)    { lockLoop("RWMutex.Lock", m, m.TryLock) }
+func RWUnlock(m *sync.RWMutex)  { unlocked(m); m.Unlock() }
+func RWRLock(m *sync.RWMutex)   { lockLoop("RWMutex.RLock", m, m.TryRLock) }
+func RWRUnlock(m *sync.RWMutex) { unlocked(m); m.RUnlock() }
 
 // ---- sync.Pool ---------------------------------------------------------------------------------
 
@@ -103,6 +124,9 @@ func PoolGet(p *sync.Pool) any {
 	if l := pools[p]; len(l) > 0 {
 		x := l[len(l)-1]
 		pools[p] = l[:len(l)-1]
+		if f := PoolEvent; f != nil {
+			f(p, false)
+		}
 		return x
 	}
 	if p.New != nil {
@@ -113,6 +137,9 @@ func PoolGet(p *sync.Pool) any {
 
 func PoolPut(p *sync.Pool, x any) {
 	pools[p] = append(pools[p], x)
+	if f := PoolEvent; f != nil {
+		f(p, true)
+	}
 	if f := SeamFn; f != nil {
 		f("pool.Put")
 	}
